@@ -1130,12 +1130,37 @@ def run_check(prop, tier, seed):
 
 
 def replay(path):
+    """Re-runs the driver command recorded in a replay file and validates the new trace with the specification that
+    judged the original one (the kind of job is derived from the driver)."""
     body = json.load(open(path))
     build()
-    job = {"name": "replay", "module": "NfsTrace.tla", "cfg": "NfsTrace.cfg", "driver": body["driver_cmd"]}
+    drv = body["driver_cmd"]
+    job = {"name": "replay", "module": "NfsTrace.tla", "cfg": "NfsTrace.cfg", "driver": drv}
+    if drv[0] in ("conc", "windows", "protoplans") and "-access" not in drv:
+        job = {"name": "replay", "kind": "lin", "driver": drv}
+        if drv[0] == "protoplans":
+            log("replay of model-generated behaviours needs the plan file of the original run: not supported")
+            return 2
+    elif drv[0] == "conc":
+        job.update(module="LockTrace.tla", cfg="LockTrace.cfg")
+    elif drv[0] in ("simple", "kvs"):
+        mod = ("Simple" if drv[0] == "simple" else "Kvs")
+        if "-sconc" in drv:
+            job = {"name": "replay", "kind": "slin", "module": mod + "Lin", "prop": body["property"], "driver": drv}
+        else:
+            job.update(module=mod + "Trace.tla", cfg=mod + "Trace.cfg")
+    elif drv[0] == "lockprogs":
+        job = {"name": "replay", "kind": "lock", "driver": drv}
+    elif drv[0] == "crash":
+        job["also_modules"] = ["WalTrace"]
+        job["driver_timeout"] = 3000
+    elif drv[0] == "exhaust":
+        job.update(module="ExhaustTrace.tla", cfg="ExhaustTrace.cfg")
+    elif drv[0] == "bmap":
+        job["also_modules"] = ["BlockMapTrace"]
     res = run_jobs([job])
     for v in res[0]["viols"]:
-        if v["seg"] == body["segment"] and v["line"] == body["line"]:
+        if v["seg"] == body["segment"] and (v["line"] == body["line"] or set(v["rules"]) & set(body["rules"])):
             log("REPRODUCED property=%s rules=%s" % (body["property"], v["rules"]))
             return 1
     log("not reproduced (%d other rejections)" % len(res[0]["viols"]))
